@@ -523,11 +523,16 @@ func (w *OggWriter) Close() error {
 	}()
 
 	if w.fd == nil {
+		if w.stream == nil {
+			return nil
+		}
+		// the output cannot be rewritten: end the logical stream with an empty page
+		closeErr := writeNilEndOfStreamPage(w.stream, w.checksumTable, w.track)
 		if closer, ok := w.stream.(io.Closer); ok {
-			return closer.Close()
+			return errors.Join(closeErr, closer.Close())
 		}
 
-		return nil
+		return closeErr
 	}
 
 	closeErr := markTrackEndOfStream(w.fd, w.checksumTable, w.track)
